@@ -1,59 +1,133 @@
 /-
   Props/C34 — staking operations conserve ICX and keep stake accounting consistent
-  (current revision).  `run w ops` executes any sequence of blocks; every block carries one
-  arbitrary transaction (stake / delegation / bond / transfer / claim / none, which may fail and
-  is then rolled back) and an arbitrary issued amount; afterwards the timers of the block fire.
+  (current revision).  `run w ops` executes any sequence of blocks; every block carries any list
+  of transactions (stake / delegation / bond / transfer / claim / P-Rep registration /
+  unregistration / none; a failing one is rolled back) and an arbitrary issued amount; afterwards
+  the unbond and unstake timers of the block's height fire.
 -/
 import Goloop.Proofs.C34
 namespace Goloop.C34
 open Proofs
 
-theorem inv_run (w : World) (ops : List (Tx × Int)) (h : Inv w) : Inv (run w ops) := by
+theorem inv_run (w : World) (ops : List (List Tx × Int)) (h : Inv w) : Inv (run w ops) := by
   induction ops generalizing w with
   | nil => exact h
   | cons op rest ih => exact ih _ (inv_block w op.1 op.2 h)
 
-theorem allOk_run (w : World) (ops : List (Tx × Int)) (h : AllOk w) : AllOk (run w ops) := by
+theorem allOk_run (w : World) (ops : List (List Tx × Int)) (h : AllOk w) : AllOk (run w ops) := by
   induction ops generalizing w with
   | nil => exact h
   | cons op rest ih => exact ih _ (allOk_block w op.1 op.2 h)
 
+theorem noOverdue_run (w : World) (ops : List (List Tx × Int)) (h : NoOverdue w) (hg : GoodTimers w ops) :
+    NoOverdue (run w ops) := by
+  induction ops generalizing w with
+  | nil => exact h
+  | cons op rest ih => exact ih _ (noOverdue_block w op.1 op.2 h hg.1) hg.2
+
+theorem totals_run (w : World) (ops : List (List Tx × Int)) (hq : ∀ op ∈ ops, ∀ tx ∈ op.1, TxWF tx)
+    (h : Totals w) : Totals (run w ops) := by
+  induction ops generalizing w with
+  | nil => exact h
+  | cons op rest ih =>
+    exact ih _ (fun o ho => hq o (by simp [ho])) (totals_block w op.1 op.2 (hq op (by simp)) h)
+
 /-- total supply = ICX outside the modelled accounts + Σ (balance + stake + unstaking), after any history. -/
-theorem supply_eq (w : World) (ops : List (Tx × Int)) (h : Inv w) :
+theorem supply_eq (w : World) (ops : List (List Tx × Int)) (h : Inv w) :
     (run w ops).totalSupply = (run w ops).rest + sumF Account.holdings (run w ops).accts :=
   (inv_run w ops h).supply
 
 /-- delegated + bonded + unbonding ≤ stake for every account, after any history
     (`AllOk`: it holds initially and no unbonding entry is negative). -/
-theorem using_le_stake (w : World) (ops : List (Tx × Int)) (h : AllOk w) :
+theorem using_le_stake (w : World) (ops : List (List Tx × Int)) (h : AllOk w) :
     ∀ a ∈ (run w ops).accts, a.delegating + a.bonded + a.unbonding ≤ a.stake := by
   intro a ha
   exact (allOk_run w ops h a ha).1
 
-/-- FULL STATEMENT: totalStake, totalDelegation and totalBond (to active P-Reps) equal the per-account sums.
-    PARTIAL: proved for totalStake; the delegation/bond totals are only checked by the oracle and the
-    correspondence run. -/
-theorem totals_are_sums_partial (w : World) (ops : List (Tx × Int)) (h : Inv w) :
-    (run w ops).totalStake = sumF Account.stake (run w ops).accts :=
-  (inv_run w ops h).stake
+/-- The network totals equal the per-account sums after any history: total stake = Σ stakes, total
+    delegation = Σ over accounts of their delegations to *currently active* P-Reps, total bond
+    likewise — across registrations and unregistrations of P-Reps.  `Totals w`: this (and the
+    per-P-Rep caches `delegated`/`bonded` being the per-account sums, active ⊆ registered, bonds only
+    to registered P-Reps, stored lists well formed) holds initially; `TxWF`: submitted vote lists have
+    distinct targets and non-negative amounts (enforced by the chain SCORE's `NewDelegations`/`NewBonds`). -/
+theorem totals_are_sums (w : World) (ops : List (List Tx × Int)) (hi : Inv w) (ht : Totals w)
+    (hq : ∀ op ∈ ops, ∀ tx ∈ op.1, TxWF tx) :
+    (run w ops).totalStake = sumF Account.stake (run w ops).accts ∧
+    (run w ops).totalDeleg = sumF (fun a => activeSum (run w ops).active a.delegs) (run w ops).accts ∧
+    (run w ops).totalBond = sumF (fun a => activeSum (run w ops).active a.bonds) (run w ops).accts ∧
+    (∀ k, (run w ops).pDelegated k = sumF (fun a => votesTo k a.delegs) (run w ops).accts) ∧
+    (∀ k, (run w ops).pBonded k = sumF (fun a => votesTo k a.bonds) (run w ops).accts) :=
+  ⟨(inv_run w ops hi).stake, (totals_run w ops hq ht).tD, (totals_run w ops hq ht).tB,
+   (totals_run w ops hq ht).dP, (totals_run w ops hq ht).bP⟩
 
-/-- FULL STATEMENT: every unstaked amount returns to its owner exactly once, at its expiry height.
-    PARTIAL: proved: when the timers of height `h` fire, exactly the slots expiring at `h` leave the list
-    and exactly their sum is added to the balance, nothing else changes (together with `supply_eq`
-    nothing is created or lost); not proved: that no slot with an expiry in the past can exist
-    (checked by the oracle key c34-unstake-overdue on the real state after every block). -/
-theorem unstake_returns_once_partial (h : Int) (a : Account) :
-    (fire h a).balance = a.balance + sumInt ((a.unstakes.filter (fun u => u.2 == h)).map (·.1)) ∧
-    (fire h a).unstakes = a.unstakes.filter (fun u => u.2 != h) ∧
-    (fire h a).stake = a.stake ∧ (fire h a).holdings = a.holdings :=
-  ⟨rfl, rfl, rfl, fire_holdings h a⟩
+/-- FULL STATEMENT (what the property asks): from a state without overdue slots, over ANY history,
+    unstaked ICX returns to its owner exactly once, when its lock period ends:
+    1. no slot is ever overdue — after every block every remaining slot expires strictly later;
+    2. as long as the owner `j` does not call setStake, the slots still present are exactly the original
+       ones whose expiry lies in the future (a slot leaves exactly at the block of its expiry height);
+    3. when the unstaking timer of height `h` fires for an account, exactly the slots expiring at `h`
+       leave the list and exactly their sum is added to the owner's balance; stake and total holdings
+       of the account are unchanged (with `supply_eq`: nothing is created, lost or paid twice).
+    PARTIAL: 1 and 2 are proved only for histories satisfying `GoodTimers` (before the timer phase of
+    every block, every slot's expiry height has the account in its unstaking timer).  That is NOT an
+    invariant of the code: `unstake_timer_lost_witness` below is a history of the real transitions
+    that breaks it (two slots of one account sharing an expiry height, then one of them removed or
+    moved: `Unstakes.decreaseUnstake/increaseUnstake` delete the account from the timer of that height).
+    3 is unconditional. -/
+theorem unstake_returns_once_partial (w : World) (hno : NoOverdue w) :
+    (∀ ops, GoodTimers w ops → ∀ j, ∀ u ∈ (getAcct (run w ops) j).unstakes, (run w ops).height < u.2) ∧
+    (∀ ops j, GoodTimers w ops → (∀ op ∈ ops, ∀ tx ∈ op.1, stakesFrom j tx = false) →
+      (run w ops).height = w.height + ops.length ∧
+      (getAcct (run w ops) j).unstakes =
+        (getAcct w j).unstakes.filter (fun u => decide ((run w ops).height < u.2))) ∧
+    (∀ (h : Int) (a : Account), a.utimers.contains h = true →
+      (fire h a).balance = a.balance + sumInt ((a.unstakes.filter (fun u => u.2 == h)).map (·.1)) ∧
+      (fire h a).unstakes = a.unstakes.filter (fun u => u.2 != h)) ∧
+    (∀ (h : Int) (a : Account), (fire h a).stake = a.stake ∧ (fire h a).holdings = a.holdings) :=
+  ⟨fun ops hg j => (noOverdue_run w ops hno hg).2 j,
+   fun ops j hg hq => ⟨run_height ops w, slots_lifetime j ops w (hno.2 j) hq hg⟩,
+   fun h a hc => by unfold fire; simp only [hc, if_true]; exact ⟨trivial, trivial⟩,
+   fun h a => ⟨fire_stake h a, fire_holdings h a⟩⟩
+
+/-- the history of the witness: one account stakes 1000, then in ONE block sets its stake to 700 and to
+    450 (two slots expiring at the same height), then re-stakes 250 (the last slot is cancelled and the
+    account leaves the timer of that height), then the expiry height passes -/
+def witnessWorld : World :=
+  { height := 100, totalSupply := 5000, lock := 10, slotMax := 3, accts := [ { balance := 5000 } ] }
+
+def witnessOps : List (List Tx × Int) :=
+  [([Tx.stake 0 1000], 0), ([Tx.stake 0 700, Tx.stake 0 450], 0), ([Tx.stake 0 700], 0)] ++
+  List.replicate 12 ([], 0)
+
+/-- WITNESS (negation of the full statement on the transcribed transitions): after the expiry height
+    (112) has passed, the slot (300, 112) is still in the unstake list and was not paid — on the real
+    code this is corpus/C34/f_unstake_timer_lost_shared_expiry.ops, oracle key
+    c34-unstake-timer-lost-shared-expiry. -/
+theorem unstake_timer_lost_witness :
+    NoOverdue witnessWorld ∧ (run witnessWorld witnessOps).height = 115 ∧
+    (getAcct (run witnessWorld witnessOps) 0).unstakes = [(300, 112)] ∧
+    (getAcct (run witnessWorld witnessOps) 0).balance = 4000 ∧
+    ¬ GoodTimers witnessWorld witnessOps := by
+  refine ⟨⟨by decide, ?_⟩, by decide, by decide, by decide, ?_⟩
+  · intro j u hu
+    cases j with
+    | zero => simp [witnessWorld, getAcct] at hu
+    | succ n => simp [witnessWorld, getAcct] at hu
+  · intro hg
+    have h3 := hg.2.2.2.1
+    revert h3
+    simp only [TimersOkW]
+    decide
 
 /-! ### non-vacuity -/
 
 def exWorld : World :=
-  { height := 100, rest := 50, totalSupply := 1050, totalStake := 300, lock := 5, slotMax := 2, unbondPeriod := 3, nPreps := 2,
+  { height := 100, rest := 50, totalSupply := 1050, totalStake := 300, totalDeleg := 200, totalBond := 50,
+    lock := 5, slotMax := 2, unbondPeriod := 3,
+    registered := fun k => decide (k < 2), active := fun k => decide (k < 2),
+    pDelegated := fun k => if k = 0 then 200 else 0, pBonded := fun k => if k = 1 then 50 else 0,
     accts := [ { balance := 600, stake := 300, unstakes := [(100, 103)], delegs := [(0, 200)], bonds := [(1, 50)],
-                 unbonds := [(1, 50, 102)] } ] }
+                 unbonds := [(1, 50, 102)], utimers := [103] } ] }
 
 example : Inv exWorld := ⟨by decide, by decide⟩
 
@@ -67,8 +141,51 @@ example : AllOk exWorld := by
   subst hu
   decide
 
-/-- a history in which stake moves to unstaking, is partly cancelled, and returns at expiry -/
-example : ((run exWorld [(Tx.stake 0 300, 0), (Tx.stake 0 310, 7), (Tx.none, 0), (Tx.none, 0)]).accts.map
-    (fun a => (a.balance, a.stake, a.unstakes))) = [(690, 310, [])] := by decide
+example : NoOverdue exWorld := by
+  refine ⟨by decide, ?_⟩
+  intro j u hu
+  cases j with
+  | zero => simp [exWorld, getAcct] at hu; subst hu; decide
+  | succ n => simp [exWorld, getAcct] at hu
+
+example : Totals exWorld := by
+  constructor
+  · intro k
+    by_cases h : k = 0
+    · subst h; decide
+    · have : ((0:Nat) == k) = false := beq_eq_false_iff_ne.mpr (fun e => h e.symm)
+      simp [exWorld, sumF, sumInt, votesTo, h, this]
+  · intro k
+    by_cases h : k = 1
+    · subst h; decide
+    · have : ((1:Nat) == k) = false := beq_eq_false_iff_ne.mpr (fun e => h e.symm)
+      simp [exWorld, sumF, sumInt, votesTo, h, this]
+  · decide
+  · decide
+  · intro a ha
+    simp [exWorld] at ha
+    subst ha
+    exact ⟨⟨by decide, by decide⟩, ⟨by decide, by decide⟩⟩
+  · intro k hk
+    exact hk
+  · intro a ha b hb
+    simp [exWorld] at ha
+    subst ha
+    simp at hb
+    subst hb
+    decide
+
+example : TxWF (Tx.deleg 0 [(0, 100), (1, 20)]) := ⟨by decide, by decide⟩
+
+/-- a history in which stake moves to unstaking, is partly cancelled, and returns at expiry; a P-Rep
+    unregisters and a new one registers -/
+example : GoodTimers witnessWorld [([Tx.stake 0 1000], 0), ([Tx.stake 0 700], 0), ([Tx.stake 0 800], 0), ([], 0)] := by
+  simp only [GoodTimers, TimersOkW]
+  decide
+
+example : ((run exWorld [([Tx.stake 0 300], 0), ([Tx.stake 0 310, Tx.deleg 0 [(0, 100), (5, 20)]], 7), ([Tx.unregister 0], 0),
+      ([Tx.register 5], 0)]).accts.map (fun a => (a.balance, a.stake, a.unstakes))) = [(690, 310, [])] ∧
+    (run exWorld [([Tx.stake 0 300], 0), ([Tx.stake 0 310, Tx.deleg 0 [(0, 100), (5, 20)]], 7), ([Tx.unregister 0], 0),
+      ([Tx.register 5], 0)]).totalDeleg = 20 := by decide
 
 end Goloop.C34
